@@ -37,7 +37,7 @@ def chain_mesh(nd, nlev):
     return {"ndims": nd, "domain": dom, "levels": levels}
 
 
-FIELDSETS = [["temp"], ["a", "b", "a", "a_2"], ["density", "density"], ["Y(H2)", "Y(O2)", "temp", "Z", "Zvar"],
+FIELDSETS = [["temp"], ["a", "b", "a", "a_2"], ["density", "density", "density"], ["Y(H2)", "Y(O2)", "temp", "Z", "Zvar"],
              ["x", "grid_level", "all"]]
 
 
@@ -99,9 +99,19 @@ def check_open(rec, sub, pck, ref, desc, path, limit, header_only, maxmins, pars
 
     def bad(what, detail=""):
         rec.fail(what, sub, detail)
-    names = c01.reader_names(desc["fields"])
-    if list(pck.fields.keys()) != names or list(pck.fields.values()) != list(range(len(names))):
-        bad("fields", "fields=%r expected %r" % (dict(pck.fields), names))
+    # field names in header order; a repeated header name must stay recognisable (unique key that starts with the
+    # header name) - the exact suffix the reader appends is not part of the statement
+    hdr = desc["fields"]
+    keys = list(pck.fields.keys())
+    okn = len(keys) == len(hdr) and list(pck.fields.values()) == list(range(len(hdr))) and len(set(keys)) == len(keys)
+    if okn:
+        for i, (k, h) in enumerate(zip(keys, hdr)):
+            collides = any(o != h and h.startswith(o) for o in hdr)     # could clash with a key generated for a repeated name
+            if not k.startswith(h) or (hdr.count(h) == 1 and not collides and k != h):
+                okn = False
+    if not okn:
+        bad("fields", "fields=%r for header names %r" % (dict(pck.fields), hdr))
+    names = keys if okn else c01.reader_names(hdr)
     if pck.ndims != nd:
         bad("ndims")
     if not same_value(pck.time, ref.time):
